@@ -15,6 +15,7 @@ func init() {
 			{Name: "crash-at-boundaries", Cfg: "clients=2,imgcap=8,cutden=24,notear", Gating: true, Share: 1},
 			{Name: "concurrent-no-crash", Cfg: "clients=3", Gating: true, Share: 1},
 			{Name: "crash-dense", Cfg: "clients=2,imgcap=30,cutden=6,maxops=30", Gating: true, Share: 3, ThoroughOnly: true},
+			{Name: "crash-dense-no-header-tear", Cfg: "clients=2,imgcap=30,cutden=6,maxops=30,nohdrtear", Gating: true, Share: 3, ThoroughOnly: true},
 		},
 		QuickSecs: 45, ThoroughSecs: 600, MaxRunsPerProc: 200,
 		Rule: "one case = one generated create(batches with duplicates)/delete/lookup/fill/reopen/sleep program of 1-3 clients over at most 24 series keys (plus filler keys) on a SeriesFile with " +
@@ -43,9 +44,12 @@ func init() {
 		Cfgs: []cfgSpec{
 			{Name: "crash-single-client", Cfg: "clients=1,imgcap=8,cutden=30", Gating: true, Share: 3},
 			{Name: "crash-concurrent", Cfg: "clients=3,imgcap=6,cutden=50", Gating: true, Share: 2},
+			{Name: "crash-outside-measurement-drop", Cfg: "clients=2,imgcap=8,cutden=24,nodmcut", Gating: true, Share: 3},
 			{Name: "concurrent-no-crash", Cfg: "clients=3", Gating: true, Share: 2},
-			{Name: "no-cache", Cfg: "clients=2,nocache,imgcap=4,cutden=50", Gating: true, Share: 1},
+			{Name: "no-cache", Cfg: "clients=2,nocache,imgcap=4,cutden=50,nodmcut", Gating: true, Share: 1},
+			{Name: "direct-drop-measurement", Cfg: "clients=2,rawdm", Gating: false, Share: 1},
 			{Name: "crash-dense", Cfg: "clients=2,imgcap=30,cutden=6,maxsteps=14", Gating: true, Share: 3, ThoroughOnly: true},
+			{Name: "crash-dense-outside-measurement-drop", Cfg: "clients=2,imgcap=30,cutden=6,maxsteps=14,nodmcut", Gating: true, Share: 3, ThoroughOnly: true},
 		},
 		QuickSecs: 45, ThoroughSecs: 600, MaxRunsPerProc: 200,
 		Rule: "one case = one generated program of steps (1-3 concurrent create/DropSeries/DropMeasurement/DropMeasurementIfSeriesNotExist operations on distinct measurements, sleep, Compact, reopen) over 3 measurements x 24 tag sets " +
@@ -58,14 +62,17 @@ func init() {
 			"tag keys and tag values of dropped series may stay listed (tsi1 keeps them until the measurement is dropped); they must have no series. Everything else is compared exactly: names, series-id sets per measurement / tag key / tag value, required keys and values, HasTagKey, HasTagValue, MeasurementExists",
 			"after a crash: every series/measurement untouched by the operations in flight must be exactly as in the model; what the operations in flight add or remove may be present or absent in any combination",
 			"operations of one step touch distinct measurements, so the model after a step does not depend on the interleaving",
+			"a series dropped from the index but alive in the series file (as when another shard still holds it) may stay listed by the iterators: tsi1 applies tombstones of newer files only partly on reads and tsdb.IndexSet filters by the series file; ids the series file has deleted are filtered the same way before comparing. Index.SeriesIDSet() is compared exactly",
+			"measurement drops are what Engine.DeleteMeasurement does (DropSeries for every series, then DropMeasurementIfSeriesNotExist); a direct Index.DropMeasurement of a non-empty measurement only runs in the observing configuration direct-drop-measurement; drops of series/measurements the index does not hold are not generated",
 		},
 	})
 	reg(&checkSpec{
 		ID: "C15", Harness: "tsi", Inst: tsiInst, Level: "exploration",
 		Classes: []string{"C15:"},
 		Cfgs: []cfgSpec{
-			{Name: "expressions", Cfg: "clients=2,nexpr=16,maxsteps=16", Gating: true, Share: 3},
-			{Name: "expressions-no-cache", Cfg: "clients=2,nexpr=16,maxsteps=16,nocache", Gating: true, Share: 1},
+			{Name: "expressions", Cfg: "clients=2,nexpr=16,maxsteps=16,sfiledrops", Gating: true, Share: 3},
+			{Name: "expressions-lingering-series", Cfg: "clients=2,nexpr=16,maxsteps=16", Gating: true, Share: 1},
+			{Name: "expressions-no-cache", Cfg: "clients=2,nexpr=16,maxsteps=16,nocache,sfiledrops", Gating: true, Share: 1},
 		},
 		QuickSecs: 45, ThoroughSecs: 600, MaxRunsPerProc: 200,
 		Rule: "one case = one generated program as for C14 (no crash images) with 16 generated tag expressions (depth <= 3 over = != =~ !~ AND OR parentheses; literals from the tag domain, the empty string, unknown values, an absent key; 14 fixed regexes) " +
